@@ -26,6 +26,8 @@ fn strings(max_len: usize) -> Vec<Vec<u8>> {
 }
 
 pub fn run(ctx: &mut Ctx) {
+    // pure parser calls: a case that takes this long is a busy loop (the watchdog names it)
+    set_stall_limit(40);
     quiet_panics();
     let rt = tokio::runtime::Builder::new_current_thread().enable_all().build().unwrap();
     let max_len = if ctx.thorough() { 5 } else { 4 };
@@ -50,6 +52,7 @@ pub fn run(ctx: &mut Ctx) {
                     q.push(' ');
                     q.push_str(&hex(c));
                 }
+                begin_case(&q);
                 let c2 = chunks.clone();
                 match catch(std::panic::AssertUnwindSafe(|| rt.block_on(verif::udp_decode_stream(c2)))) {
                     Ok(d) => ctx.emit(&q, &crate::c06::fmt_dgs(&d)),
@@ -87,6 +90,7 @@ pub fn run(ctx: &mut Ctx) {
                     q.push(' ');
                     q.push_str(&hex(c));
                 }
+                begin_case(&q);
                 let c2 = chunks.clone();
                 match catch(std::panic::AssertUnwindSafe(|| rt.block_on(verif::udp_decode_stream(c2)))) {
                     Ok(d) => ctx.emit(&q, &crate::c06::fmt_dgs(&d)),
@@ -118,6 +122,7 @@ pub fn run(ctx: &mut Ctx) {
                     let engine = RulesEngine::from_config(RulesConfig { rule: rules.clone() });
                     for rnd in &randoms {
                         let q = format!("c04 eval 0 {} {} {}", crate::c04::ip_token(&Some(ip)), if rnd.is_empty() { "-".to_string() } else { hex(rnd) }, crate::c04::rules_tokens(&rules));
+                        begin_case(&q);
                         match catch(std::panic::AssertUnwindSafe(|| engine.evaluate(&ip, Some(rnd)))) {
                             Ok(v) => ctx.emit(&q, if v == RuleEvaluation::Allow { "allow" } else { "deny" }),
                             Err(m) => {
@@ -134,6 +139,7 @@ pub fn run(ctx: &mut Ctx) {
     // ---- ICMP multiplexer stream ------------------------------------------------------------------------
     for t in &tails {
         let q = format!("c11 decode {}", hex(t));
+        begin_case(&q);
         match catch(std::panic::AssertUnwindSafe(|| rt.block_on(verif::icmp_decode_stream(vec![t.clone()])))) {
             Ok(r) => ctx.emit(&q, if r.is_empty() { "-" } else { "nonempty" }),
             Err(m) => {
@@ -142,6 +148,34 @@ pub fn run(ctx: &mut Ctx) {
             }
         }
         ctx.stat("icmp_stream");
+    }
+    // whole request frames delivered in pieces, with the tails behind them (a frame reassembled from chunks, then more input)
+    {
+        let frame: Vec<u8> = {
+            let mut f = vec![0x12, 0x34];
+            f.extend_from_slice(&[0u8; 12]);
+            f.extend_from_slice(&[127, 0, 0, 1, 0, 7, 64, 0, 8]);
+            f
+        };
+        for cut in [1usize, 10, 22] {
+            for t in tails.iter().take(if ctx.thorough() { tails.len() } else { 60 }) {
+                let mut rest = frame[cut..].to_vec();
+                rest.extend_from_slice(t);
+                let chunks = vec![frame[..cut].to_vec(), rest, frame.clone()];
+                let q = format!("c11 decode {}", chunks.iter().map(|c| hex(c)).collect::<Vec<_>>().join(" "));
+                begin_case(&q);
+                let c2 = chunks.clone();
+                match catch(std::panic::AssertUnwindSafe(|| rt.block_on(verif::icmp_decode_stream(c2)))) {
+                    Ok(r) => {
+                        if r.len() > 2 + t.len() / 23 {
+                            ctx.oracle_failure("panic", &format!("icmp request decoder produced {} requests from {} bytes: {}", r.len(), 46 + t.len(), q));
+                        }
+                    }
+                    Err(m) => ctx.oracle_failure("panic", &format!("icmp request decoder panicked ({}) on {}", m, q)),
+                }
+                ctx.stat("icmp_stream_fragmented_frame");
+            }
+        }
     }
     // ---- raw ICMP / ICMPv6 packets: each error type + quoted IP header prefix + tail --------------------
     let mut v4hdr = vec![0u8; 20];
@@ -164,6 +198,7 @@ pub fn run(ctx: &mut Ctx) {
                     p.extend(t);
                     let h = hex(&p);
                     let q = format!("c11 responded {} {}", v6 as u8, h);
+                    begin_case(&q);
                     match catch(|| verif::icmp_responded(v6, &p)) {
                         Ok(None) => ctx.emit(&q, "rejected"),
                         Ok(Some(None)) => ctx.emit(&q, "none"),
@@ -220,6 +255,7 @@ pub fn run(ctx: &mut Ctx) {
                         }
                         let hx = hex(&p);
                         let q = format!("c11 responded {} {}", v6 as u8, hx);
+                        begin_case(&q);
                         match catch(|| verif::icmp_responded(v6, &p)) {
                             Ok(None) => ctx.emit(&q, "rejected"),
                             Ok(Some(None)) => ctx.emit(&q, "none"),
@@ -241,6 +277,7 @@ pub fn run(ctx: &mut Ctx) {
             for cut in [p.len(), p.len().saturating_sub(3)] {
                 let body = &p[..cut];
                 let q = format!("c11 skip {} {}", v6 as u8, hex(body));
+                begin_case(&q);
                 match catch(|| verif::skip_ip_header(v6, body)) {
                     Ok(None) => ctx.emit(&q, "none"),
                     Ok(Some((proto, rest))) => ctx.emit(&q, &format!("{} {}", proto, hex(&rest))),
@@ -263,6 +300,7 @@ pub fn run(ctx: &mut Ctx) {
             let mut p = pre.to_vec();
             p.extend(t);
             let q = format!("c12 extract {}", hex(&p));
+            begin_case(&q);
             match catch(|| verif::extract_client_random(&p)) {
                 Ok((0, Some(x))) => ctx.emit(&q, &format!("found {}", hex(&x))),
                 Ok((1, _)) => ctx.emit(&q, "needmore"),
